@@ -83,7 +83,7 @@ for p in props:
             "engine": engine,
             "level_claimed": {"category": level, "text": text, "design_ref": "DESIGN.md section " + ref},
             "level_note": note,
-            "technique": technique,
+            "technique": technique + (" + coverage-guided libFuzzer campaign over the same strategies and oracle (thorough tier; its merged corpus is replayed in the quick tier)" if pid in ("C02", "C03", "C04", "C06", "C13", "C20") else ""),
         })
     else:
         na.append({"property_id": pid, "reason": NOT_YET.get(pid, "check not built yet in this round (designed in DESIGN.md section 4); not claimed until its check runs clean on the unchanged tree")})
@@ -104,7 +104,8 @@ m = {
    {"name": "setuprig", "path": "harness/src/bin/setuprig.rs", "serves_properties": ["C17"], "kind_free_text": "real proxy_agent_setup binary chroot'ed into overlayfs(lower=/) in a private mount namespace + file-map model"},
    {"name": "telemetry", "path": "harness/src/bin/telemetry.rs", "serves_properties": ["C18"], "kind_free_text": "real EventReader on tokio's paused clock + raw mock host + xml-rs"},
    {"name": "keeper", "path": "harness/src/bin/keeper.rs", "serves_properties": ["C09", "C10", "C12", "C13", "C16"], "kind_free_text": "real KeyKeeper / shared-state actors against a reference secure-channel host in a private namespace; owned-schedule executor for schedule properties"},
-   {"name": "pure", "path": "harness/src/bin/pure.rs", "serves_properties": ["C02", "C03", "C04", "C19", "C20"], "kind_free_text": "in-process proptest runners over the agent's public functions with independent reference models"},
+   {"name": "libfuzzer", "path": "fuzz/", "serves_properties": ["C02", "C03", "C04", "C06", "C13", "C20"], "kind_free_text": "cargo-fuzz / libFuzzer targets (ASan; for C06 also the C program with ASan + trapping UBSan): the 64-bit words of the input select case components through the same proptest strategies (harness/src/words.rs), the same oracles decide; thorough tier runs 8 jobs with a fixed number of executions, the committed merged corpus fuzz/seeds/ is also evaluated by every quick run through the plain harness"},
+   {"name": "pure", "path": "harness/src/bin/pure.rs", "serves_properties": ["C02", "C03", "C04", "C13", "C19", "C20"], "kind_free_text": "in-process proptest runners over the agent's public functions with independent reference models"},
  ],
  "checks": checks,
  "not_applicable": na,
